@@ -2,6 +2,7 @@
 from mirlib import *
 import simple_rules
 import pcw_rules
+import norm_rules
 
 TECHNIQUE = "expression trees / polynomial normal forms of the coordinate, pose and scaled-integer formulas compared with the documented ones; assume-prune decision tables over enum discriminants for the conversion guards and the invalid-state decoding; option-flag <-> stage control-dependence and per-point stage order; index wiring tables; yield-count typestate"
 EXPLANATION = (
@@ -33,5 +34,6 @@ def run(ctx):
         simple_rules.indices_wiring(ctx, prog, "R3")
         simple_rules.option_stage(ctx, prog, "R4")
         simple_rules.conversion_tables(ctx, prog, "R5")
+        norm_rules.selection_order(ctx, prog, "R4")
         pcw_rules.raw_reader_count(ctx, prog, "R6", path=simple_rules.IT, adt="pc_reader_simple::PointCloudReaderSimple", records=("pc", "records"))
     ctx.cfg = None
